@@ -112,7 +112,48 @@ def expected_close : List String := [
   "..break",
   "f.out = nil"]
 
-theorem close_eq : Nsq.Gen.ToolsToFile.close = expected_close := rfl
+/-- with fix F19: `f.out = nil` also on the successful-move path -/
+def expected_close_fixed : List String := [
+  "if f.out == nil",
+  ".return",
+  "if f.gzipWriter != nil",
+  ".err := f.gzipWriter.Close()",
+  ".if err != nil",
+  "..os.Exit(1)",
+  "err := f.out.Sync()",
+  "if err != nil",
+  ".os.Exit(1)",
+  "err = f.out.Close()",
+  "if err != nil",
+  ".os.Exit(1)",
+  "if f.opts.WorkDir != f.opts.OutputDir",
+  ".src := f.out.Name()",
+  ".dst := filepath.Join(f.opts.OutputDir, strings.TrimPrefix(src, f.opts.WorkDir))",
+  ".err := exclusiveRename(src, dst)",
+  ".if err == nil",
+  "..f.out = nil",
+  "..return",
+  ".else",
+  "..if !os.IsExist(err)",
+  "...os.Exit(1)",
+  "._, filenameTmpl := filepath.Split(f.filename)",
+  ".dstDir, _ := filepath.Split(dst)",
+  ".dstTmpl := filepath.Join(dstDir, filenameTmpl)",
+  ".for i := f.rev + 1;; i++",
+  "..dst := strings.Replace(dstTmpl, \"<REV>\", fmt.Sprintf(\"-%06d\", i), -1)",
+  "..err := exclusiveRename(src, dst)",
+  "..if err != nil",
+  "...if os.IsExist(err)",
+  "....continue",
+  "...os.Exit(1)",
+  "..break",
+  "f.out = nil"]
+
+/-- `Close()` is one of the two known shapes: the tree before fix F19 (early `return` after a successful move,
+`f.out` left in place — model parameter `Cfg.closeClears = false`) or the tree with it (`closeClears = true`).
+Which one the model runs with is decided by a probe of the real `Close()` in the harness. -/
+theorem close_eq : Nsq.Gen.ToolsToFile.close = expected_close ∨ Nsq.Gen.ToolsToFile.close = expected_close_fixed := by
+  decide
 
 def expected_write : List String := [
   "n, err := f.writer.Write(p)",
@@ -268,7 +309,7 @@ theorem close_order :
     ∧ pos "err := f.out.Sync()" close < pos "err = f.out.Close()" close
     ∧ pos "err = f.out.Close()" close < pos ".err := exclusiveRename(src, dst)" close
     ∧ pos ".err := exclusiveRename(src, dst)" close < close.length := by
-  rw [close_eq]; decide
+  rcases close_eq with h | h <;> rw [h] <;> decide
 
 /-- `exclusiveRename` is link-then-remove (never rename(2), which would replace the target) -/
 theorem exclusiveRename_is_link_then_remove :
